@@ -24,11 +24,10 @@ def import_job(interp, c, case):
     index, seed = case
     import libsbml
     spec = C13gen.spec_for(index, seed)
-    doc = C13gen.build_document(spec)
     d = tempfile.mkdtemp(prefix="bioscrape-verif-c13-", dir=SCRATCH_ROOT)
     path = os.path.join(d, "m%d.xml" % index)
     try:
-        libsbml.writeSBMLToFile(doc, path)
+        C13gen.write_document(spec, path)
         U = interp.load("bioscrape.sbmlutil")
         S = interp.load("bioscrape.simulator")
         rp = dict(index=index, seed=seed)
